@@ -14,17 +14,20 @@ for d in "$@"; do
   out=$ROOT/seeded/$name/verification.txt
   {
     echo "seeded change $name verified on $(git -C /repo rev-parse --short HEAD) at $(date -u +%FT%TZ)"
-    cd $WT && git checkout -q -- . && rm -f avro/tests/zz_mutation_demo.rs
+    # seeded/<id>/demo_target (optional): "<crate dir> <package>" when the demo belongs to another crate than avro
+    dir=avro; pkg=apache-avro
+    if [ -f $ROOT/seeded/$name/demo_target ]; then read dir pkg < $ROOT/seeded/$name/demo_target; fi
+    cd $WT && git checkout -q -- . && rm -f avro/tests/zz_mutation_demo.rs avro_derive/tests/zz_mutation_demo.rs
     if ! git apply $ROOT/seeded/$name/patch.diff; then echo "PATCH DOES NOT APPLY"; continue; fi
     echo "--- suite with the change:"
     cargo nextest run --workspace --no-fail-fast --offline 2>&1 | grep -E "Summary|FAIL " | head -5
-    cp $ROOT/seeded/$name/demo.rs avro/tests/zz_mutation_demo.rs
+    cp $ROOT/seeded/$name/demo.rs $dir/tests/zz_mutation_demo.rs
     echo "--- demo with the change (expected: FAILED):"
-    cargo test -p apache-avro --test zz_mutation_demo --offline 2>&1 | grep -E "^test result|error\[" | head -3
+    cargo test -p $pkg --test zz_mutation_demo --offline 2>&1 | grep -E "^test result|error\[" | head -3
     git checkout -q -- avro avro_derive
     echo "--- demo without the change (expected: ok):"
-    cargo test -p apache-avro --test zz_mutation_demo --offline 2>&1 | grep -E "^test result|error\[" | head -3
-    rm -f avro/tests/zz_mutation_demo.rs
+    cargo test -p $pkg --test zz_mutation_demo --offline 2>&1 | grep -E "^test result|error\[" | head -3
+    rm -f $dir/tests/zz_mutation_demo.rs
   } > $out 2>&1
 done
 cd / ; git -C /repo worktree remove --force $WT
